@@ -17,7 +17,6 @@ import (
 	"syscall"
 	"time"
 
-
 	"verif/htlab/internal/core"
 	"verif/htlab/internal/lab"
 	fr "verif/htlab/internal/ref/frames"
@@ -39,16 +38,18 @@ func (prop) Assumptions() []string {
 var me = net.IPv4(127, 0, 0, 1)
 
 type conn struct {
-	Peer  int      `json:"peer"`
-	Sport int      `json:"sport"`
-	Dport int      `json:"dport"`
-	ISN   uint32   `json:"isn"`
-	Segs  []int    `json:"segs"` // segment lengths
-	Psh   int      `json:"psh"`  // index of the segment carrying PSH (-1: none)
-	Fin   bool     `json:"fin"`
-	HTTP  bool     `json:"http"`
+	Peer  int    `json:"peer"`
+	Sport int    `json:"sport"`
+	Dport int    `json:"dport"`
+	ISN   uint32 `json:"isn"`
+	Segs  []int  `json:"segs"` // segment lengths
+	Psh   int    `json:"psh"`  // index of the segment carrying PSH (-1: none)
+	Fin   bool   `json:"fin"`
+	HTTP  bool   `json:"http"`
 	// FinData: the client's FIN travels on its last data segment instead of on a segment of its own
 	FinData bool `json:"fin_on_last_data_segment,omitempty"`
+	// End: one more segment after the client's FIN: "ack" (a last bare acknowledgment) or "rst"
+	End string `json:"end,omitempty"`
 }
 
 type scenario struct {
@@ -73,6 +74,9 @@ func (sc scenario) peer(i int) net.IP {
 func (c conn) nframes() int {
 	n := 2 + len(c.Segs)
 	if c.Fin && !(c.FinData && len(c.Segs) > 0) {
+		n++
+	}
+	if c.End != "" {
 		n++
 	}
 	return n
@@ -218,6 +222,29 @@ func scenarios(tier string, seed int64) []scenario {
 		}
 		out = append(out, sc)
 	}
+	// the first of two connections is finished on both sides (and, in two variants, followed by a last bare ACK or
+	// a RST) while the second, opened after it, is still open; the second then sends its data and closes
+	nfe := 12
+	if tier == "thorough" {
+		nfe = 150
+	}
+	for i := 0; i < nfe; i++ {
+		r := core.NewRng(seed, "C14/first-ends", i)
+		a := conn{Peer: 0, Sport: 26000 + i, Dport: []int{23, 4444, 8080, 5000}[i%4], ISN: uint32(r.U64()), Segs: []int{r.Range(1, 30)}, Psh: 0, Fin: true, End: []string{"", "ack", "rst"}[i%3]}
+		b := conn{Peer: 1, Sport: 27000 + i, Dport: []int{5000, 31337, 4444}[i%3], ISN: []uint32{1<<32 - 2, uint32(r.U64()), 0}[i%3], Segs: []int{r.Range(1, 200), r.Range(1, 200)}, Psh: 1, Fin: true}
+		if i%5 == 4 {
+			b.Peer = 0 // both from one peer
+		}
+		sc := scenario{Conns: []conn{a, b}, Kind: "first-ends-while-second-open"}
+		sc.Order = []int{0, 0, 1, 1}
+		for j := 2; j < a.nframes(); j++ {
+			sc.Order = append(sc.Order, 0)
+		}
+		for j := 2; j < b.nframes(); j++ {
+			sc.Order = append(sc.Order, 1)
+		}
+		out = append(out, sc)
+	}
 	// IPv4 identification values at the carry boundaries of the header checksum, per peer address: the child
 	// learns the listener's header constants from the SYN-ACK and sets the identification (verif hook) before
 	// each later step
@@ -329,6 +356,7 @@ type cstate struct {
 	sent    int
 	next    int
 	ack     uint32 // what the client acknowledges: srvISN+1, or the server's FIN once seen
+	finSent bool
 }
 
 func runScenario(k int, sc scenario) scnObs {
@@ -425,10 +453,18 @@ func runScenario(k int, sc scenario) scnObs {
 			}
 			if c.Fin && c.FinData && j == len(c.Segs)-1 {
 				t.Flags |= fr.FIN
+				s.finSent = true
 			}
 			s.sent += len(data)
+		case c.End != "" && s.finSent:
+			// after the close: a last bare acknowledgment, or a reset
+			t.Seq, t.Ack, t.Flags = c.ISN+2+uint32(s.sent), s.ack, fr.ACK
+			if c.End == "rst" {
+				t.Flags = fr.RST
+			}
 		default:
-			if sc.Kind == "reconnect-same-tuple" {
+			s.finSent = true
+			if sc.Kind == "reconnect-same-tuple" || (sc.Kind == "first-ends-while-second-open" && ci == 0) {
 				// the client closes only after it has seen the listener's FIN (the handler closes on its own
 				// goroutine), so that its FIN carries the last acknowledgment and the connection is finished
 				// on both sides before the reconnect
@@ -802,6 +838,7 @@ func (prop) Judge(b core.Batch, recs []core.Rec, exits []core.Exit) []core.Resul
 			}
 		}
 		// events
+		claimed := map[int]bool{}
 		for ci, c := range sc.Conns {
 			s := &sh[ci]
 			if !s.synAcked || len(ob.Skipped) > 0 {
@@ -823,22 +860,33 @@ func (prop) Judge(b core.Batch, recs []core.Rec, exits []core.Exit) []core.Resul
 			} else {
 				firstPush = total
 			}
-			// a later connection on the same address/port tuple (a reconnect) owns the later event
-			skip := 0
-			for cj := 0; cj < ci; cj++ {
-				if o := sc.Conns[cj]; o.Peer == c.Peer && o.Sport == c.Sport && o.Dport == c.Dport {
-					skip++
-				}
-			}
+			// connections on the same address/port tuple (a reconnect) each own one of the tuple's events. Their
+			// handlers run on goroutines of their own, so the order of the events says nothing: an event belongs to
+			// the connection whose bytes it carries (the payloads differ per connection); only events without such
+			// evidence are handed out in order
 			var ev *evObs
-			for i := range ob.Events {
-				e := &ob.Events[i]
-				if e.SrcIP == sc.peer(c.Peer).String() && e.SrcPort == c.Sport && e.DstPort == c.Dport {
-					if skip > 0 {
-						skip--
+			for pass := 0; pass < 2 && ev == nil; pass++ {
+				for i := range ob.Events {
+					e := &ob.Events[i]
+					if claimed[i] || e.SrcIP != sc.peer(c.Peer).String() || e.SrcPort != c.Sport || e.DstPort != c.Dport {
 						continue
 					}
+					if pass == 0 && !(e.HasPl && len(e.Payload) > 0 && bytes.HasPrefix(pl, []byte(e.Payload))) {
+						continue
+					}
+					if pass == 1 && e.HasPl && len(e.Payload) > 0 {
+						other := false
+						for cj, o := range sc.Conns {
+							if cj != ci && o.Peer == c.Peer && o.Sport == c.Sport && o.Dport == c.Dport && bytes.HasPrefix(payloadOf(o, cj), []byte(e.Payload)) {
+								other = true
+							}
+						}
+						if other {
+							continue
+						}
+					}
 					ev = e
+					claimed[i] = true
 					break
 				}
 			}
